@@ -70,3 +70,15 @@ class CacheMapStub:
 
     def add(self, *args):
         self.calls.append(args)
+
+
+class HostPathStub:
+    """A path of the platform bfg9000 runs on: only what installify() looks at."""
+    def __init__(self, suffix, root, destdir=False):
+        self.suffix, self.root, self.destdir = suffix, root, destdir
+
+
+class TargetPathStub:
+    """A path of the platform the build is for (cross builds)."""
+    def __init__(self, suffix, root, destdir=False):
+        self.suffix, self.root, self.destdir = suffix, root, destdir
